@@ -4,7 +4,7 @@
    and only existing ones, gives nothing twice, and gives every partition of every topic with a subscriber. *)
 From Coq Require Import List ZArith.
 From SV Require Import C08.Common C08.Range C08.RoundRobin C08.Sticky C08.Valid
-  C08.ProofsRangeValid C08.ProofsRR C08.ProofsWitness.
+  C08.ProofsRangeValid C08.ProofsRR C08.ProofsSticky C08.ProofsWitness.
 Import ListNotations.
 Open Scope Z_scope.
 
@@ -37,3 +37,24 @@ Theorem c08_sticky_refuted_terminates :
     forall fx fuel, exists p, sticky_plan fuel fx o ms ts = SFuel p.
 Proof. exact sticky_refuted_terminates. Qed.
 Print Assumptions c08_sticky_refuted_terminates.
+
+(* sticky, repaired code (fx = true; fixes/c08_sticky_prev_owner.patch, in the tree since f29beca): for ALL members,
+   subscriptions, topic maps, user data (any generations, conflicting, stale, deleted partitions) and ALL iteration orders
+   (oracle o), and for EVERY amount of fuel given to the `for {}` loop of performReassignments: no panic, and the plan
+   Plan returns - or would return if the loop were left at that point - is valid, except when the "revert" branch of
+   balance() is taken while some member is set aside as fixed (that branch rebinds a local variable and would drop the
+   fixed members; it was never observed reachable).  Partial: the full statement (Plan returns a valid plan) is false,
+   next theorem. *)
+Theorem c08_sticky_valid_partial : forall fuel o ms ts, wf_members ms -> wf_topics ts ->
+  let r := sticky_plan_full fuel true o ms ts in
+  match p_res r with
+  | SErr => exists mm, In mm ms /\ m_ud mm = UDErr
+  | SPanic => False
+  | SFuel p | SOk p => (p_reverted r = true -> p_nfixed r = 0) -> valid_plan ms ts p
+  end.
+Proof. exact sticky_valid. Qed.
+Print Assumptions c08_sticky_valid_partial.
+
+Theorem c08_sticky_valid_refuted : ~ sticky_full_statement.
+Proof. exact sticky_full_statement_refuted. Qed.
+Print Assumptions c08_sticky_valid_refuted.
